@@ -89,9 +89,18 @@ def r1(ctx):
     wu = ctx.func(A + ".write_unchanged")
     wcfg = ctx.cfg(wu)
     wl = [n for n in walk_function(wu.node) if isinstance(n, ast.For) and "_iterrecords" in u(n.iter)]
-    ctx.require(len(wl) == 1, "write_unchanged does not loop over _iterrecords")
-    probs = util.check_loop_conservation(wcfg, wl[0], lambda n: wcfg.kind(n) == "stmt" and any(isinstance(c, ast.Call) and u(c.func) == "self._writer.write" and c.args and u(c.args[0]) == u(wl[0].target) for c in ast.walk(wcfg.ast(n))))
-    ctx.ob(wu.qual, "unchanged-chromosome-copied", not probs, wu.loc(wl[0]), "every record of an unrequested chromosome is copied" if not probs else "write_unchanged can drop a record", wcfg.describe_path(probs[0][1]) if probs else None)
+    wm = [n for n in walk_function(wu.node) if isinstance(n, ast.For) and "_record_modifier" in u(n.iter)]
+    if len(wl) == 1:
+        probs = util.check_loop_conservation(wcfg, wl[0], lambda n: wcfg.kind(n) == "stmt" and any(isinstance(c, ast.Call) and u(c.func) == "self._writer.write" and c.args and u(c.args[0]) == u(wl[0].target) for c in ast.walk(wcfg.ast(n))))
+        ctx.ob(wu.qual, "unchanged-chromosome-copied", not probs, wu.loc(wl[0]), "every record of an unrequested chromosome is copied" if not probs else "write_unchanged can drop a record", wcfg.describe_path(probs[0][1]) if probs else None)
+    elif len(wm) == 1:
+        # the other way to copy a chromosome: run the yield-then-write generator (checked above) to its end without touching the records
+        exits = util.lexical_loop_exits(wm[0])
+        touched = [st for st in util.store_sites(wm[0]) if util.root_name(st.target) == u(wm[0].target)]
+        ok = not exits and not touched
+        ctx.ob(wu.qual, "unchanged-chromosome-copied", ok, wu.loc(wm[0]), "write_unchanged exhausts _record_modifier (which writes every record it yields) without modifying a record" if ok else "write_unchanged leaves the record generator early or modifies a record")
+    else:
+        ctx.ob(wu.qual, "unchanged-chromosome-copied", None, wu.loc(), "write_unchanged neither loops over _iterrecords nor over _record_modifier")
     # (a4) loops over _record_modifier never leave early
     n_mod = 0
     for fi in ctx.prog.funcs_in(V):
@@ -352,22 +361,30 @@ def r4(ctx):
         lp = getattr(lp, "parent", None)
     sloops = [lp] if lp is not None else []
     ctx.require(len(sloops) == 1, "per-sample loop containing the setter not found")
-    gh = guard_atoms(cfg, cfg.node_of(sloops[0]))
-    texts = {(t, p) for t, p in gh}
-    want = [
-        (("record.alts", True), "records without ALT are skipped"),
-        (("pos == prev_pos", False), "duplicate positions are skipped"),
-    ]
-    for atom, why in want:
-        ok = atom in texts
-        ctx.ob(w.qual, "skip-guard:%s" % atom[0], ok, w.loc(sloops[0]), why if ok else "the per-sample section is not dominated by `%s%s`" % ("" if atom[1] else "not ", atom[0]))
-    multi = [t for t, p in texts if not p and "len(record.alts)" in t and "self._mav" in t]
-    ctx.ob(w.qual, "skip-guard:multi-alt-without-mav", bool(multi), w.loc(sloops[0]), "multi-ALT records are skipped unless mav" if multi else "the per-sample section is not dominated by the multi-ALT/mav test")
-    snv = [t for t, p in texts if not p and "self._only_snvs" in t and "is_snv" in t]
-    ctx.ob(w.qual, "skip-guard:only-snvs", bool(snv), w.loc(sloops[0]), "non-SNVs are skipped with only_snvs" if snv else "the per-sample section is not dominated by the only_snvs test")
-    isd = util.single_def(w.node, "is_snv")
-    ok = isd is not None and canon_bool(isd) == "(1 == len(str(record.alts[0])) and 1 == len(str(record.ref)))"
-    ctx.ob(w.qual, "is_snv-definition", ok, w.loc(), "is_snv means REF and the ALT both have length 1" if ok else "is_snv is %s" % (u(isd) if isd is not None else "?"))
+    # what every path from the head of the record loop to the per-sample section has established (path summaries with
+    # locals substituted; the skips may be guard clauses, one combined condition, or a predicate helper)
+    from rules.common import path_implies
+
+    rloop0 = [n for n in walk_function(w.node) if isinstance(n, ast.For) and "self._record_modifier" in u(n.iter)]
+    try:
+        psums = pathfx.summaries(cfg, src=cfg.node_of(rloop0[0]), dst=cfg.node_of(sloops[0])) if len(rloop0) == 1 else []
+    except OverflowError:
+        psums = []
+    if not psums:
+        ctx.ob(w.qual, "skip-guard", None, w.loc(sloops[0]), "cannot enumerate the paths from the record loop to the per-sample section")
+    else:
+        ALTS, MULTI, MAV, ONLY = "record.alts", "1 < len(record.alts)", "self._mav", "self._only_snvs"
+        S1, S2 = "1 == len(str(record.alts[0]))", "1 == len(str(record.ref))"
+        DUP = "prev_pos == record.start"
+        reqs = [
+            ("record.alts", [ALTS], lambda e: e[ALTS], "records without ALT are skipped"),
+            ("pos == prev_pos", [DUP], lambda e: not e[DUP], "duplicate positions are skipped"),
+            ("multi-alt-without-mav", [MULTI, MAV], lambda e: (not e[MULTI]) or e[MAV], "multi-ALT records are skipped unless mav"),
+            ("only-snvs", [ONLY, S1, S2], lambda e: (not e[ONLY]) or (e[S1] and e[S2]), "with only_snvs, records whose REF or ALT is longer than one base are skipped"),
+        ]
+        for name_, base_, formula_, why_ in reqs:
+            bad_ = [ps for ps in psums if not path_implies(ps.atoms, base_, formula_)]
+            ctx.ob(w.qual, "skip-guard:%s" % name_, not bad_, w.loc(sloops[0]), "%s (on all %d paths to the per-sample section)" % (why_, len(psums)) if not bad_ else "the per-sample section can be reached without this having been established: %s" % why_, cfg.describe_path(bad_[0].path) if bad_ else None)
     # prev_pos bookkeeping
     pp = [(s, v) for s, v in util.assignments_to(w.node, "prev_pos") if isinstance(v, ast.AST)]
     ok = sorted(u(v) for s, v in pp) == ["None", "pos"]
@@ -421,7 +438,20 @@ def r5(ctx):
                 p = cfg.find_path(node, head, avoid_nodes=adds, start_after=True)
                 idx = u(st.target)
                 fmtvar = u(lp.target) if lp is not None else "?"
-                same = "[%s]" % fmtvar in idx and any("PREDEFINED_FORMATS[%s]" % fmtvar in u(v) for s_, v in util.assignments_to(fi.node, "h") if isinstance(v, ast.AST))
+                # the line that is added in this loop comes from PREDEFINED_FORMATS[<the same id>] (directly or via a local)
+                def from_predefined(call):
+                    for a_ in call.args:
+                        for x_ in ast.walk(a_):
+                            if isinstance(x_, ast.Name):
+                                for s_, v in util.assignments_to(fi.node, x_.id):
+                                    if isinstance(v, ast.AST) and "PREDEFINED_FORMATS[%s]" % fmtvar in u(v):
+                                        return True
+                        if "PREDEFINED_FORMATS[%s]" % fmtvar in u(a_):
+                            return True
+                    return False
+
+                loop_adds = [c for c in ast.walk(lp) if isinstance(c, ast.Call) and isinstance(c.func, ast.Attribute) and c.func.attr == "add_line"] if lp is not None else []
+                same = "[%s]" % fmtvar in idx and any(from_predefined(c) for c in loop_adds)
                 ok = p is None and same
                 why = "the removed FORMAT definition is re-added from PREDEFINED_FORMATS on every normal path" if ok else "a FORMAT definition can be removed without being re-added"
             ctx.ob(fi.qual, "header-effect:%s" % txt[:60], ok, fi.loc(st.stmt), "%s -- %s" % (txt[:60], why))
